@@ -170,6 +170,8 @@ func ambiguousTail(s []byte) bool {
 type c08ctx struct {
 	res        *Result
 	ops, goOut []string
+	reused     map[string]transform.Transformer
+	prevSrc    map[string][]byte
 }
 
 func (c *c08ctx) line(op string) string {
@@ -288,6 +290,38 @@ func (r *chunkReader) Read(p []byte) (int, error) {
 // tinyAgrees: the transformer driven through tiny destination buffers gives what transform.Bytes gives
 func (c *c08ctx) tinyAgrees(name string, mk func() transform.Transformer, src []byte, op string) {
 	want, _, werr := transform.Bytes(mk(), src)
+	// one long-lived transformer per entry point, used for message after message: an attempt into a destination
+	// that is too small is given up, the transformer is reset, and must then treat this message like a fresh one
+	if c.reused == nil {
+		c.reused = map[string]transform.Transformer{}
+	}
+	if c.reused[name] == nil {
+		c.reused[name] = mk()
+	}
+	if t := c.reused[name]; len(src) > 0 {
+		other := c.prevSrc[name] // the message given up is a different one (the previous message of this entry point)
+		if len(other) == 0 || bytes.Equal(other, src) {
+			other = []byte("given up: 0123456789 abcdefghijklmnopqrstuvwxyz")
+		}
+		func() {
+			defer func() { _ = recover() }()
+			t.Transform(make([]byte, 1), other, true)
+		}()
+		if c.prevSrc == nil {
+			c.prevSrc = map[string][]byte{}
+		}
+		c.prevSrc[name] = append([]byte(nil), src...)
+		t.Reset()
+		var got []byte
+		var err error
+		pn := Guard(func() { got, _, err = transform.Bytes(t, src) })
+		c.res.Eval(fmt.Sprintf("reused/%s/%s", name, hx(src[:min(len(src), 40)])), true)
+		if pn.Panic != "" || (err != nil) != (werr != nil) || (err == nil && !bytes.Equal(got, want)) {
+			c.res.Violate("C08.entry-points-disagree:"+name+"-reused", fmt.Sprintf("%s reused after an abandoned attempt and a Reset: on %s it gives %s (err=%v), a fresh one %s (err=%v)", name, hx(src[:min(len(src), 40)]), hx(got[:min(len(got), 60)]), err, hx(want[:min(len(want), 60)]), werr), []string{op})
+			c.reused[name] = mk()
+			return
+		}
+	}
 	// through x/text's stream adapters, which rely on the octet counts the transformer reports
 	if len(src) > 0 {
 		got, err := io.ReadAll(transform.NewReader(bytes.NewReader(src), mk()))
